@@ -771,7 +771,7 @@ def repo_mods(repo):
 def run_session_case(repo, pname, setup, msgs, opts=None):
     opts = opts or {}
     return pr.run_session(repo_mods(repo), pname, setup, msgs, verbose=bool(opts.get('verbose')),
-                          late=opts.get('late'))
+                          late=opts.get('late'), script=opts.get('script'))
 
 
 def oracle_session(obs, msgs):
@@ -811,6 +811,8 @@ def sess_model_line(pname, setup, msgs, outs, opts):
             any(1300 <= bracket_depth(m) <= 1700 for m in msgs) or len(msgs) > 4:
         return None
     late = (opts or {}).get('late')
+    if (opts or {}).get('script'):
+        return None
     if late:
         if setup or msgs:
             return None
@@ -864,6 +866,11 @@ def evaluate_sessions(ctx, res, cases, scope):
             res.count('session_with_debug_logging')
         if opts and opts.get('late'):
             res.count(f'session_late_{ask}')
+        if opts and opts.get('script'):
+            res.count('session_history')
+            for a_ in (ask or '').split(','):
+                if a_:
+                    res.count(f'session_history_ask_{a_}')
         if i in mp:
             mphase, mobs = (mp[i].split(' ', 1) + [''])[:2]
             mobs = mobs.split(',') if mobs else []
@@ -988,6 +995,39 @@ def late_family(deep_tier):
     return out
 
 
+ANSWER_KINDS = ('valid', 'error', 'malformed', 'duplicate')
+
+
+def history_family(rng, n, pool):
+    """random histories of local and remote activity before the probe: the session sends
+    requests and batches of its own, time passes (their timeouts fire), the peer answers them -
+    at once, or around the deadline (in particular in the same loop iteration as the timeout) -
+    correctly, with errors, malformed, twice, and sends hostile bytes in between"""
+    out = []
+    small = [m for m in pool if len(m) < 400]
+    for _ in range(n):
+        pname = rng.choice(('v2', 'v2', 'loose', 'auto', 'v1'))
+        steps, asks = [], 0
+        for _k in range(rng.randint(2, 7)):
+            r = rng.random()
+            if asks == 0 or r < 0.3:
+                steps.append(['ask', rng.choice(('single', 'batch'))])
+                asks += 1
+            elif r < 0.42:
+                steps.append(['sleep', rng.choice((0.0, 1.0, 29.0, 29.9999999995, 30.0, 31.0))])
+            elif r < 0.82:
+                steps.append(['answer', rng.randrange(asks), rng.choice(ANSWER_KINDS),
+                              rng.choice((None, -1.0, -5e-10, -5e-10, 0.0, 5e-10, 1.0))])
+            else:
+                steps.append(['peer', rng.choice(small).hex()])
+        opts = {'script': steps}
+        if rng.random() < 0.3:
+            opts['verbose'] = True
+        msgs = [rng.choice(small)] if rng.random() < 0.3 else []
+        out.append((pname, [], msgs, opts))
+    return out
+
+
 # ------------------------------------------------------------------------------ corpus / replay
 def rebuild(m):
     if isinstance(m, list):
@@ -1025,9 +1065,10 @@ def load_corpus(verif):
 RULE = ('connection case = (protocol class, outstanding requests: none / 3 singles / batches of 2 '
         'and 3 / mixed / states in which a waiter gave up or the future is already resolved, one '
         'message or a short sequence on the same connection); session case = (protocol, '
-        'outstanding, 0-3 hostile messages, logging off or fully on, optionally the session\'s own '
-        'request timing out with the response delivered around the deadline, then a probe '
-        'request) on a real RPCSession over a fake transport and the virtual loop.  Messages: the '
+        'outstanding, 0-3 hostile messages, logging off or fully on, optionally a history before '
+        'them: the session\'s own requests / batches timing out, time passing, the peer answering '
+        'them at once or around the deadline - in particular in the same loop iteration as the '
+        'timeout - and sending hostile bytes in between; then a probe request) on a real RPCSession over a fake transport and the virtual loop.  Messages: the '
         'odd-typed-id table (32 id texts x 13 message shapes, all id pairs in 2-member response '
         'batches), the decision-table grid, responses of four kinds (+ duplicates) to every entry '
         'of every abandoned state, the resource-limit family (nesting 10^3..10^5 in six '
@@ -1079,6 +1120,9 @@ def run(ctx):
     small_big = [BIG[k](d) for k in ('deep-list', 'deep-id-response', 'digits-id', 'digits-bare', 'deep-unclosed')
                  for d in ((1000, 5000, 100000) if not ctx.deep else BIG_SIZES)]
     pool = odd + small_big * 3
+    hcases = history_family(rng, 6000 if ctx.deep else 250, odd + VALID)
+    evaluate_sessions(ctx, res, hcases, 'history')
+    res['scopes']['session_history_cases'] = len(hcases)
     ns = 12000 if ctx.deep else 400
     gcases = [(pn, setup_for(pn, 'mixed'), [m], None) for m in small_big for pn in ('v2', 'v1')]
     gcases += gen_session_cases(rng, ns, pool)
